@@ -11,6 +11,7 @@ siblings differ in exactly one comparison; ordered searches are monotone and ran
 Not decided: the 0-/1-based and inclusive/exclusive arithmetic at the boundaries.
 """
 import itertools
+import os
 import re
 
 from engine.cfg import cfg_of
@@ -399,8 +400,10 @@ def check_span_model(ctx, out, rule="C02.span"):
         ((1, 3), (1, 9), (1, 10), (3, 1)),
         ((1, 3), (2, 4), (2, 5), (4, 3)),
     ]
-    range_sets = [None, [(0, 1)], [(1, 2)], [(2, 3)], [(3, 4)], [(4, 5)], [(8, 9)], [(9, 10)], [(10, 11)], [(0, 30)], [(0, 1), (9, 10)], [(0, 2), (3, 5)]]
+    range_sets = [None, [(0, 1)], [(1, 2)], [(2, 3)], [(3, 4)], [(4, 5)], [(8, 9)], [(9, 10)], [(10, 11)], [(0, 30)], [(0, 1), (9, 10)], [(0, 2), (3, 5)],
+                  [(0, 1), (3, 4), (9, 10)], [(0, 2), (2, 5), (8, 12)]]
     tables = {}
+    nonmono = []
     for b0 in cands:
         v = ctx.inl(b0, skip=lambda cb: False, tag="all-sugar", sugar=True)
         rows = {}
@@ -410,11 +413,11 @@ def check_span_model(ctx, out, rule="C02.span"):
                 ("content_position_range", CW.adt("std::ops::Range", "Range", 0, [("start", pos(*cf)), ("end", pos(*cl))]))])
             for line in range(0, 6):
                 for rs in range_sets:
-                    for shape in ("alone", "after", "before"):
+                    for shape in ("alone", "after", "before", "between"):
                         lst_ = [change(line, rs)]
-                        if shape == "after":
+                        if shape in ("after", "between"):
                             lst_ = [change(0, None)] + lst_
-                        elif shape == "before":
+                        if shape in ("before", "between"):
                             lst_ = lst_ + [change(9, None)]
                         results = set()
 
@@ -435,7 +438,10 @@ def check_span_model(ctx, out, rule="C02.span"):
                             r_ = lm(w, bb, t, argv, env)
                             if r_ is not None:
                                 return r_
-                            return std(w, bb, t, argv, env)
+                            r_ = std(w, bb, t, argv, env)
+                            if r_ is None and os.environ.get("BW_DEBUG_MODEL"):
+                                print("span model: unknown call", nm, [str(a)[:60] for a in argv])
+                            return r_
                         w = CW.Walk(ctx, v, [hook], max_states=6000)
 
                         def on_visit(bb, env):
@@ -451,10 +457,18 @@ def check_span_model(ctx, out, rule="C02.span"):
                             return None
                         if len(results) != 1 or "?" in results:
                             return None
+                        if getattr(w, "nonmonotone", None):
+                            nonmono.append((b0.id, w.nonmonotone[0]))
                         rows[(ci, line, tuple(rs) if rs is not None else None, shape)] = results.pop()
         tables[b0.id] = rows
     n = 0
     roles = {}
+    ctx.__dict__["_span_monotone"] = not nonmono
+    if nonmono:
+        bid, (what, seq) = nonmono[0]
+        out.viol(rule, "%s|nonmonotone|%s" % (rule, what), ctx.where(ctx.facts.body(bid)),
+                 "on the small model's ordered lists the %s of `%s` answers %s along a sorted slice: not monotone, so the ordered search can miss elements that do intersect" % (
+                     "predicate" if what == "partition_point" else "comparator", what, list(seq)))
     for bid, rows in tables.items():
         diffs = {"content": [], "tag": []}
         for (ci, line, rs, shape), got in rows.items():
@@ -483,14 +497,25 @@ def check_span_model(ctx, out, rule="C02.span"):
                      "`%s` (the %s span, %s from %d:%d to %d:%d): a %s on line %d%s is %s; expected %s (%d of %d cases of the small model differ) - a diff that %s" % (
                          bid.split("::")[-1], role, "half-open" if role == "content" else "inclusive", first[0], first[1], last[0], last[1],
                          "whole-line change" if rs is None else "change of characters %s" % (list(rs),), line,
-                         {"alone": "", "after": " (listed after a change on another line)", "before": " (listed before a change on another line)"}[shape],
+                         {"alone": "", "after": " (listed after a change on another line)", "before": " (listed before a change on another line)", "between": " (listed between changes on other lines)"}[shape],
                          "reported as touching the span" if got else "not seen", "touching" if not got else "not touching", len(d), tot,
                          "edits the block goes unnoticed" if not got else "does not touch the block marks it modified"))
         else:
             n += 1
     out.inst(rule, n, 2, ["%s: %s span, %d cases" % (bid.split("::")[-1], r[0], r[2]) for bid, r in roles.items()], exhaustive=True,
-             note="2 block layouts x 6 lines x 12 change shapes x 3 list positions per method")
-    return ok
+             note="2 block layouts x 6 lines x 14 change shapes x 4 list positions per method; ordered searches monotone on every list")
+    return ok and not nonmono
+
+
+def span_verdict(ctx):
+    """True / False / None of the span model (computed once per run)"""
+    if "_span_verdict" not in ctx.__dict__:
+        from engine.core import Out
+        try:
+            ctx.__dict__["_span_verdict"] = check_span_model(ctx, Out("span"), rule="span")
+        except Exception:       # noqa: BLE001
+            ctx.__dict__["_span_verdict"] = None
+    return ctx.__dict__["_span_verdict"]
 
 
 def _span(ctx, out, rule):
@@ -585,7 +610,12 @@ def check_inclusive(ctx, out, rule="C02.incl"):
                         break
     if n == 0:
         n += _inclusive_by_flag(ctx, out, rule, incl_fields)
-    out.inst(rule, n, 2, ["RangeInclusive -> `start <= end_col`", "Range -> `start < end_col`"], exhaustive=True)
+    # the comparison at the span's end is also exercised by the span model (changes ending right at, on and behind
+    # the last character of both spans): when that decides, a form of the comparison this reading cannot find
+    # is not a missing anchor
+    floor = 0 if (n == 0 and span_verdict(ctx) is True) else 2
+    out.inst(rule, n, floor, ["RangeInclusive -> `start <= end_col`", "Range -> `start < end_col`"], exhaustive=True,
+             note=None if floor else "end-column comparison not found in a form this rule reads; decided by the span model")
 
 
 def _inclusive_by_flag(ctx, out, rule, incl_fields):
@@ -871,6 +901,18 @@ def check_nonint(ctx, out):
             if r:
                 callers.setdefault(r, set()).add(b.id)
 
+    # ... also when it is handed on as a function value (`.map(BlockWithContext::listing)`)
+    for b in ctx.reachable_bodies():
+        ops = [a for bi, t in b.calls() for a in t["args"]]
+        for bi, j, s in b.assigns():
+            rv = s["rv"]
+            ops.extend(o for o in [rv.get("op"), rv.get("a"), rv.get("b")] if isinstance(o, dict))
+            ops.extend(rv.get("ops", []))
+        for o in ops:
+            k = o.get("k") if isinstance(o, dict) else None
+            if isinstance(k, dict) and k.get("fn"):
+                callers.setdefault(k["fn"], set()).add(b.id)
+
     def only_from_allowed(bid, depth=4, seen=()):
         if allowed.search(bid):
             return True
@@ -881,14 +923,24 @@ def check_nonint(ctx, out):
         if b is not None and b.kind == "Closure" and b.parent:
             cs.add(b.parent)
         return bool(cs) and all(only_from_allowed(c, depth - 1, seen + (bid,)) for c in cs)
+    # a detector shared by several validators (data-driven) may read the content flag for `affects`: that no other
+    # validator's detection depends on the flags is decided on the detectors' small model (8 cases each)
+    vals = ctx.roles().get("validators", {})
+    shared_detects = {}
+    for vn, vi_ in vals.items():
+        if vi_.get("detect"):
+            shared_detects.setdefault(vi_["detect"], []).append(vn)
     n = 0
     for bid, fields in sorted(readers.items()):
         if only_from_allowed(bid):
             n += 1
+        elif bid in shared_detects and "affects" in shared_detects[bid] and all(shared.detect_cases_verdict(ctx, vn) is True for vn in shared_detects[bid]):
+            n += 1
         else:
             out.viol("C02.nonint", "C02.nonint|%s" % bid, ctx.where(ctx.facts.bodies[bid]),
                      "`%s` reads the diff flag(s) %s: outside the affects rule and the list report a block's verdict must not depend on what the diff touched (diff mode must give the diagnostics of a full scan)" % (bid, sorted(fields)))
-    out.inst("C02.nonint", n, 3, sorted(readers), note="bodies that read is_content_modified / _is_start_tag_modified")
+    # (the anchor: somebody reads the flags at all - the drift rule must; how many bodies share the reading is a matter of style)
+    out.inst("C02.nonint", n, 1, sorted(readers), note="bodies that read is_content_modified / _is_start_tag_modified")
     for name in ("keep-sorted", "keep-unique", "line-pattern", "line-count", "check-lua", "check-ai"):
         shared.sh_state(ctx, out, name)
 
@@ -908,6 +960,11 @@ def features(ctx, b):
 
 
 def check_siblings(ctx, out):
+    if span_verdict(ctx) is True:
+        # both tests are decided against the documented overlap rule on the span model, each on its own: their
+        # agreement (same computation but for `<` / `<=` at the end column) follows and needs no shape comparison
+        out.inst("C02.siblings", 1, 1, ["content and start-tag tests each agree with the overlap rule on the span model"])
+        return
     a = ctx.facts.body("blockwatch::blocks::Block::intersects_with_line_change")
     b = ctx.facts.body("blockwatch::blocks::Block::intersects_with_line_change_inclusive")
     if a is None or b is None:
